@@ -346,6 +346,36 @@ def run_guarantee(case):
                                          ((json.dumps(json.loads(pick(back).serialize())[k]), v) for k, v in vals.items()))
             except Exception as e:  # noqa: BLE001
                 res["roundtrip_equal"] = "exc:" + type(e).__name__
+        # allow_custom=True with an undeclared property: constructing the class directly and parsing the equivalent
+        # JSON give the same object, and every given property is in the output
+        if kind in ("object", "observable"):
+            docx, _ = build(vals)
+            docx["x_zz_undeclared"] = "kept?"
+            cx = {}
+            try:
+                made = cls(allow_custom=True, **{k: v for k, v in docx.items()})
+                cx["construct"] = "ok"
+            except Exception as e:  # noqa: BLE001
+                made, cx["construct"] = None, "exc:" + type(e).__name__
+            try:
+                if kind == "observable":
+                    parsed = stix2.parse_observable(docx, allow_custom=True, version=ver)
+                else:
+                    parsed = stix2.parse(docx, allow_custom=True, version=ver)
+                cx["parse"] = "ok"
+            except Exception as e:  # noqa: BLE001
+                parsed, cx["parse"] = None, "exc:" + type(e).__name__
+            if made is not None and parsed is not None:
+                try:
+                    tm, tp = made.serialize(), parsed.serialize()
+                    dm, dp = json.loads(tm), json.loads(tp)
+                    cx["given_kept_construct"] = all(dm.get(k) == v for k, v in docx.items())
+                    cx["given_kept_parse"] = all(dp.get(k) == v for k, v in docx.items())
+                    cx["equal"] = bool(made == parsed)
+                    cx["text_equal"] = tm == tp
+                except Exception as e:  # noqa: BLE001
+                    cx["error"] = "exc:" + type(e).__name__
+            res["custom_extra"] = cx
         # other extensions on the instance are kept (next to the one extension_name= adds)
         if ver == "2.1" and kind in ("object", "observable") and helper == "ok":
             extra = {HELPER_EXT: {"extension_type": "property-extension", "hprop": "hv"},
